@@ -69,6 +69,27 @@ AggCode(r, idxs, k, dv) ==
 KeyMatches(r, kv) == \A i \in 1..Len(cfg.gout) :
    IF cfg.gout[i] \in DOMAIN r THEN Same(r[cfg.gout[i]], kv[i]) ELSE IsNull(kv[i])
 
+\* ---- global carrier: TRIGGER WHEN predicate over the aggregates of the group's rows since it last fired ----
+\* aggregate as a rational <<has, num, den>> (fixed point numerator)
+\* (evaluated while the row of the current "in" line is being appended: it is row Len(rows)+1)
+RowAt(i) == IF i = Len(rows) + 1 THEN Trace[l].row ELSE rows[i]
+AggRat(fn, arg, idxs) ==
+  LET xs == [i \in 1..Len(idxs) |-> ArgVal(arg, RowAt(idxs[i]))]  u == Usable(xs) IN
+  CASE fn = "count_star" -> <<TRUE, Len(idxs) * Scale, 1>>
+    [] fn = "count" -> <<TRUE, Len(NonNull(xs)) * Scale, 1>>
+    [] fn = "sum"   -> IF u = <<>> THEN <<FALSE, 0, 1>> ELSE <<TRUE, SumF(u), 1>>
+    [] fn = "avg"   -> IF u = <<>> THEN <<FALSE, 0, 1>> ELSE <<TRUE, SumF(u), Len(u)>>
+    [] fn = "min"   -> IF u = <<>> THEN <<FALSE, 0, 1>> ELSE <<TRUE, MinF(u), 1>>
+    [] fn = "max"   -> IF u = <<>> THEN <<FALSE, 0, 1>> ELSE <<TRUE, MaxF(u), 1>>
+Cmp(op, a, b) == CASE op = ">" -> a > b [] op = ">=" -> a >= b [] op = "<" -> a < b [] op = "<=" -> a <= b
+                   [] op = "==" -> a = b [] op = "!=" -> a # b
+RECURSIVE PHolds(_, _)
+PHolds(p, idxs) ==
+  CASE p.o = "cmp" -> LET r == AggRat(p.fn, p.arg, idxs) IN r[1] /\ Cmp(p.op, r[2], p.lit * r[3])     \* NULL aggregate: not true
+    [] p.o = "and" -> PHolds(p.a, idxs) /\ PHolds(p.b, idxs)
+    [] p.o = "or"  -> PHolds(p.a, idxs) \/ PHolds(p.b, idxs)
+Fires(ix) == IF cfg.carrier = "counting" THEN Len(ix) = cfg.n ELSE PHolds(cfg.pred, ix)
+
 \* ---- counting carrier ----
 BufIdx(kt) == {i \in 1..Len(buf) : buf[i].key = kt}
 CountOutCode(e) ==
@@ -105,28 +126,28 @@ Next ==
      ELSE IF dead THEN UNCHANGED <<cfg, rows, buf, exp, nout, dead, used>>
      ELSE IF e.e = "in" THEN
         /\ rows' = Append(rows, e.row)
-        /\ IF cfg.carrier = "counting" THEN
+        /\ IF cfg.carrier \in {"counting", "global"} THEN
               LET kt == KeyTuple(e.row)  bi == BufIdx(kt)  i == Len(rows) + 1 IN
               IF bi = {} THEN
-                   IF cfg.n = 1 THEN /\ exp' = Append(exp, [kv |-> KeyVals(e.row), idxs |-> <<i>>]) /\ buf' = buf
+                   IF Fires(<<i>>) THEN /\ exp' = Append(exp, [kv |-> KeyVals(e.row), idxs |-> <<i>>]) /\ buf' = buf
                    ELSE /\ buf' = Append(buf, [key |-> kt, kv |-> KeyVals(e.row), idxs |-> <<i>>]) /\ exp' = exp
               ELSE LET b == CHOOSE j \in bi : TRUE  ix == Append(buf[b].idxs, i) IN
-                   IF Len(ix) = cfg.n THEN
+                   IF Fires(ix) THEN
                         /\ exp' = Append(exp, [kv |-> buf[b].kv, idxs |-> ix])
                         /\ buf' = [buf EXCEPT ![b].idxs = <<>>]
                    ELSE /\ buf' = [buf EXCEPT ![b].idxs = ix] /\ exp' = exp
            ELSE UNCHANGED <<buf, exp>>
         /\ UNCHANGED <<cfg, nout, dead, used>>
      ELSE IF e.e = "out" THEN
-        LET c == IF cfg.carrier = "counting" THEN CountOutCode(e) ELSE TumbOutCode(e) IN
+        LET c == IF cfg.carrier \in {"counting", "global"} THEN CountOutCode(e) ELSE TumbOutCode(e) IN
         IF c[1] = "" THEN
            /\ nout' = nout + 1
-           /\ exp' = IF cfg.carrier = "counting" THEN Tail(exp) ELSE exp
+           /\ exp' = IF cfg.carrier \in {"counting", "global"} THEN Tail(exp) ELSE exp
            /\ \A d \in c[2] : PrintT(<<"DEV", cfg.tr, l, d>>)
            /\ UNCHANGED <<cfg, rows, buf, dead, used>>
         ELSE Reject(c[1]) /\ UNCHANGED <<cfg, rows, buf, exp, nout, used>>
      ELSE IF e.e = "quiesce" THEN
-        /\ IF cfg.carrier = "counting" /\ exp # <<>> THEN Reject("missing_delivery")
+        /\ IF cfg.carrier \in {"counting", "global"} /\ exp # <<>> THEN Reject("missing_delivery")
            ELSE IF cfg.carrier = "tumbling" /\ nout = 0 /\ Len(rows) > cfg.n THEN Reject("missing_delivery")
            ELSE UNCHANGED dead
         /\ UNCHANGED <<cfg, rows, buf, exp, nout, used>>
